@@ -218,6 +218,27 @@ def gen_history(rng, maxlen, auto):
     return q
 
 
+def gen_episodes(rng, n):
+    """several unclean closes in a row on one transport and monitor, each followed by reopen attempts of which the
+    first few fail: the reopen policy (attempt count, waits) holds per episode, whatever happened in earlier ones"""
+    cases = []
+    for _ in range(n):
+        maxa = rng.choice([2, 3, 3, 5])
+        ev = [{"op": "open"}, {"op": "isopen"}]
+        for ep in range(rng.randrange(2, 5)):
+            ev.append({"op": "failopens", "n": rng.randrange(0, maxa)})      # fewer failures than the budget: the episode ends in a reopen
+            ev += traffic(rng)
+            ev.append({"op": "readerr", "kind": rng.choice([1, 2, 3]), "tag": 40 + ep})
+            ev.append({"op": "isopen"})
+        ev += [{"op": "close"}, {"op": "isopen"}]
+        q = {"monitor": True, "auto": True, "events": ev, "family": "episodes"}
+        q.update(rand_policy(rng))
+        q["max"] = maxa
+        q["init_ns"] = rng.choice([0, 1, 1000])
+        cases.append(q)
+    return cases
+
+
 def gen_kth_io(rng, kmax):
     """the k-th operation on the underlying transport fails, for every k"""
     cases = []
@@ -544,6 +565,7 @@ def run(ctx, br):
         if not quick:
             reqs += gen_cut_cases(rng, 4, (0, 1, 2, 3), 2)
         reqs += gen_kth_io(rng, 12)
+        reqs += gen_episodes(rng, 12 if quick else 150)
         n_hist, n_sched = (500, 400) if quick else (6000, 5000)
         reqs += [gen_history(rng, 12, True) for _ in range(n_hist)]
         reqs += [gen_history(rng, 16, False) for _ in range(n_sched)]
